@@ -224,7 +224,7 @@ def run(ctx, driver):
     rng = ctx.rng
     rec = propbase.Rec(ctx, ID)
     del TRIPLES[:]
-    n = 700 if ctx.quick else 12000
+    n = 700 if ctx.quick else 60000
     for i in range(n):
         which = rng.choice(["h1", "h1", "h2", "h2", "proxy"])
         case = h1_case(rng) if which == "h1" else h2_frames(rng) if which == "h2" else proxy_case(rng)
@@ -308,7 +308,7 @@ def run(ctx, driver):
                 rec.fail("invalid-request-not-localprotocolerror", {"proto": proto, "what": what, "got": detail or outcome}, payload)
     # ---- several requests sharing one HTTP/2 connection, faults at any operation, cancellation at any point ---------------
     import h2x
-    for i in range(60 if ctx.quick else 1500):
+    for i in range(60 if ctx.quick else 6000):
         cfg = {"max_connections": rng.choice([1, 2]), "callers": rng.randint(2, 5), "p_fault": 0.3, "p_cancel": rng.choice([0.0, 0.2]),
                "cancel_phase": "any", "p_goaway": 0.1, "p_eof": 0.05, "p_rst": 0.1, "segment": rng.choice(["whole", "coarse", "fine"]),
                "init_max_streams": rng.choice([1, 2, 10]), "ups": [0, 0, 300, 70000], "max_steps": 120}
